@@ -338,5 +338,11 @@ for _p in ("C01", "C02", "C04", "C13"):
             if "g_locks" in _x["name"]:
                 _x["what"] = "ADVISORY " + _x["what"] + " (mechanism probe: a failure is reported as a note, not as a violation)"
 
+_W_UNSUB = "REAL loop + REAL do_notify (reduce/effect summarised), subscribers A and B; unsubscribe(B) by another thread placed at ONE scheduling point before / between the notification rounds of 2 notifying actions; oracle: nothing delivered to B after unsubscribe() returned, A unaffected, on_unsubscribe once each"
+S_UNSUB = [_gn(n, _W_UNSUB, b, timeout_s=900) for n, b in [("s_unsub_reduce0", "during the reduce phase of action 0"), ("s_unsub_before_dispatch0", "in before_dispatch of action 0 (snapshot not yet taken)"), ("s_unsub_between", "after action 1 was taken from the queue"), ("s_unsub_effect0", "during the effect phase of action 0"), ("s_unsub_reduce1", "during the reduce phase of action 1")]]
+CHECKS["C09"]["quick"] += S_UNSUB[:3]
+CHECKS["C09"]["thorough"] += S_UNSUB[3:]
+CHECKS["C09"]["bounds"] += "; unsubscribe(B) from another thread placed at 5 scheduling points before/between notification rounds (K=1)"
+
 HOOK_COMMITS = ['da8b80e', '8cd617e', '39efd23']
 NOT_APPLICABLE = {}
